@@ -230,7 +230,23 @@ def check(ctx):
                     t = N.norm(b['time'], env) if 'time' in b else None
                     dur_atoms = [k for k in (t.terms if t else {}) if k.startswith('max(')]
                     want_atom = 'max(0, self._cycle_time + self._next_cycle_time_offset)'
-                    if t is None or not t.is_({'NOW': 1, want_atom: 1}):
+                    raw = {'self._cycle_time': 1, 'self._next_cycle_time_offset': 1}
+
+                    def guarded_positive():
+                        # `if d > 0: schedule(now + d)` with d the unclamped duration: on that edge max(0, d) is d
+                        for m in g.nodes.values():
+                            if m.kind != 'cond':
+                                continue
+                            for truth in (True, False):
+                                r = cmp_norm(N, m.ast, FrameEnv(m.frame), truth, names=True)
+                                if r and r[1] == '<=' and (r[0].is_({want_atom: 1}) or r[0].is_(raw)):
+                                    pos_lbl = 'F' if truth else 'T'
+                                    if n.id not in g.reach_edges([g.entry], cut_edges={(m.id, pos_lbl)}):
+                                        return True
+                        return False
+                    if t is not None and t.is_(dict(raw, NOW=1)) and guarded_positive():
+                        o.witness((cname, e, 'time'))
+                    elif t is None or not t.is_({'NOW': 1, want_atom: 1}):
                         o.fail(P, f'{cname}.{e}', cl, f'the cycle timer must be due at now + max(0, cycle_time + one-shot offset); found `{t.key() if t else None}`', node=n)
                     else:
                         o.witness((cname, e, 'time'))
@@ -268,7 +284,7 @@ def check(ctx):
                     for m in conds:
                         for truth in (True, False):
                             r = cmp_norm(N, m.ast, FrameEnv(m.frame), truth, names=True)
-                            if r and r[1] == '<=' and r[0].is_({want_atom: 1}):
+                            if r and r[1] == '<=' and (r[0].is_({want_atom: 1}) or r[0].is_(raw)):       # (d <= 0 <=> max(0, d) <= 0)
                                 zero_lbl, pos_lbl = ('T', 'F') if truth else ('F', 'T')
                                 zr = g.reach([x for l, x in g.succ[m.id] if l == zero_lbl], follow=lambda l: l != 'exc')
                                 pr = g.reach([x for l, x in g.succ[m.id] if l == pos_lbl], follow=lambda l: l != 'exc')
@@ -306,7 +322,8 @@ def check(ctx):
             o.fail(P, s.ctx, s.stmt, 'the one-shot cycle offset is written outside its owners', file=s.mod.path, line=s.line)
     for s in inv.attr_stores(P, '_cycle_time'):
         o.count()
-        if not (s.cls is PH and s.func.name == 'cycle_time'):
+        placeholder = s.cls is PH and s.func.name == '__init__' and isinstance(s.stmt, ast.Assign) and isinstance(s.stmt.value, ast.Constant) and s.stmt.value.value is None
+        if not ((s.cls is PH and s.func.name == 'cycle_time') or placeholder):       # (`= None` in the constructor only declares the field)
             o.fail(P, s.ctx, s.stmt, 'the cycle time is written outside its setter', file=s.mod.path, line=s.line)
 
     # ---- C06.3 callbacks before the cycle time is read -------------------------------------------
